@@ -270,6 +270,73 @@ func c07Scenario(p c07Params) Scenario {
 
 var c07Kinds = []string{"attach", "walk", "open", "create", "read", "write", "stat", "wstat", "clunk", "remove"}
 
+// c07AcrossVersion: a request is held under tag t when a Tversion arrives in
+// mid-session; the new session uses tag t again (held as well); the old request
+// completes; then the client flushes tag t. The Rflush must not overtake the reply of
+// the new request.
+func c07AcrossVersion(kind, flushMode string, dotu bool, maxpend, P int) Scenario {
+	var s *sess
+	name := fmt.Sprintf("flush across-Tversion %s flushop=%s maxpend=%d dotu=%v", kind, flushMode, maxpend, dotu)
+	body := func() {
+		s = newSess(SrvOpt{Msize: 256, Dotu: dotu, Maxpend: maxpend, Flush: flushMode != "none"})
+		s.fs.FlushMode = flushMode
+		s.fs.NoLateAnswer = flushMode == "cancel"
+		a := s.prepare("read", 30, 100)
+		b := s.prepare(kind, 31, 100)
+		gA, gB := vs.NewSem(0), vs.NewSem(0)
+		s.fs.Script[reqKey{0, 100, 0}] = &Action{Gate: gA}
+		s.fs.Script[reqKey{0, 100, 1}] = &Action{Gate: gB}
+		s.c.Send(dotu, a)
+		vs.Idle()
+		ver := "9P2000"
+		if dotu {
+			ver = "9P2000.u"
+		}
+		if r := s.c.Version(256, ver); r == nil || r.Type != wire.Rversion {
+			vs.Fail("Tversion in mid-session answered by %v", r)
+		}
+		s.setupN = len(s.c.Collect())
+		vs.Window(true)
+		s.c.Send(dotu, b)
+		vs.Idle()
+		gA.Release()
+		vs.Idle()
+		s.c.Send(dotu, &wire.Msg{Type: wire.Tflush, Tag: 101, Oldtag: 100})
+		vs.Idle()
+		gB.Release()
+		vs.Idle()
+		vs.Window(false)
+		s.c.Collect()
+	}
+	check := stdCheck("C07", func(x *vs.Exec) *Viol {
+		frames := s.c.Frames[s.setupN:]
+		detail := map[string]any{"wire": strings.Split(framesString(frames), "\n"), "fslog": strings.Split(s.fs.logString(), "\n")}
+		nflush, rflushAt := 0, -1
+		for i, f := range frames {
+			if f.Msg == nil {
+				return &Viol{Sig: "C07/malformed-frame", Msg: f.Err, Detail: detail}
+			}
+			if f.Msg.Tag == 101 {
+				nflush++
+				rflushAt = i
+				if f.Msg.Type != wire.Rflush {
+					return &Viol{Sig: "C07/tflush-answered-by-" + wire.Names[f.Msg.Type], Msg: framesString(frames), Detail: detail}
+				}
+			}
+		}
+		if nflush != 1 {
+			return &Viol{Sig: fmt.Sprintf("C07/rflush-count-%d/across-version", nflush), Msg: fmt.Sprintf("the Tflush got %d replies\n%s\nparked %v", nflush, framesString(frames), x.Parked), Detail: detail}
+		}
+		for i, f := range frames {
+			if f.Msg.Tag == 100 && i > rflushAt {
+				return &Viol{Sig: "C07/reply-after-rflush/across-version", Msg: fmt.Sprintf("the request of the new session under tag 100 was answered after the Rflush for that tag (a Tversion before it, with an older request under the same tag still held, must not make the server lose track of it)\n%s", framesString(frames)), Detail: detail}
+			}
+		}
+		return nil
+	}, nil)
+	return vsScenario(&VsSpec{Name: name, Body: body, Check: check, P: P})
+}
+
 func c07Scenarios(tier string) []Scenario {
 	var out []Scenario
 	add := func(p c07Params) { out = append(out, c07Scenario(p)) }
@@ -300,6 +367,7 @@ func c07Scenarios(tier string) []Scenario {
 			add(c07Params{Kind: k, Stage: "twoflush", FlushMode: "ignore", Gated: true, Rel: "free", Maxpend: mp, Dotu: dotu, P: 2})
 		}
 	}
+	out = append(out, c07AcrossVersion("read", "none", false, 0, 2), c07AcrossVersion("walk", "cancel", true, 2, 2), c07AcrossVersion("stat", "ignore", true, 1, 2))
 	for _, k := range []string{"read", "walk"} {
 		add(c07Params{Kind: k, Stage: "afterreply", FlushMode: "none", P: P})
 		add(c07Params{Kind: k, Stage: "unknown", FlushMode: "cancel", Dotu: true, P: P})
@@ -319,7 +387,7 @@ func c07Scenarios(tier string) []Scenario {
 func init() {
 	register(&Property{ID: "C07", Level: "model_checking",
 		Technique: "stateless model checking of the real server under a controlled scheduler (all schedules within a preemption bound)",
-		Rule:      "every schedule with at most P preemptions of the server goroutines, scripted implementation and releaser, per scenario (target kind x flush stage x FlushOp behaviour x gated/immediate x release timing x Maxpend x dialect; also with the target carrying tag 0xFFFF); after quiescence sequential probes (fid state, tag reuse); distinct = distinct per-object operation orders",
+		Rule:      "every schedule with at most P preemptions of the server goroutines, scripted implementation and releaser, per scenario (target kind x flush stage x FlushOp behaviour x gated/immediate x release timing x Maxpend x dialect; also with the target carrying tag 0xFFFF; a flush of a tag re-used after a Tversion in mid-session); after quiescence sequential probes (fid state, tag reuse); distinct = distinct per-object operation orders",
 		Assumptions: []string{"code between two synchronisation operations is atomic (race-free executions)", "transport modelled as an unbounded reliable byte queue", "the reply buffer the target receives last carried the matching R-type (warm-up request of the same kind)"},
 		Scenarios:   c07Scenarios, QuickS: 110, ThoroughS: 1700})
 }
